@@ -745,6 +745,10 @@ func runCheck(c *Check, tier, replay string, keep bool, shardsOverride int) int 
 	// confirm fresh violations by replaying the recorded case (same binary)
 	rc := 0
 	replDir := filepath.Join(verifRoot, "replays", c.ID)
+	if repoRoot != "/repo" {
+		// runs against scratch worktrees (seeded changes, mutants) may overlap in time: keep their artefacts apart
+		replDir = filepath.Join(replDir, fmt.Sprintf("wt-%d", os.Getpid()))
+	}
 	var confirmed []*Violation
 	if len(fresh) > 0 {
 		os.MkdirAll(replDir, 0o755)
